@@ -58,6 +58,7 @@ def run(chk):
     for i in range(8):
         chk.section(f"variable-stats-{i}", lambda i=i: varstats_section(chk, i, 8))
     chk.section("cfg-uses", lambda: cfg_uses_section(chk))
+    chk.section("nested-uses", lambda: nested_uses_section(chk))
     n = 16
     for i in range(n):
         chk.section(f"bounded-{i}", lambda i=i: bounded_section(chk, i, n))
@@ -508,3 +509,89 @@ def cfg_uses_section(chk):
     n = C3.cfg_obligations(chk, e, list(enumerate(progs)), 4, what="the-CFG-reads-(and-fails-on-unbound)-exactly-the-variables-Python-reads")
     chk.record("cfg-uses:programs-explored", n == len(progs), str(n), kind="reachability")
     chk.use_engine(e)
+
+
+def nested_uses_section(chk):
+    """VariableVisitor.visit_NestedFunctionDef / visit_ModifiedBlock (cfg/bb.py): the outer variables a nested
+    body needs are the variables live at its entry, computed the way the body is CHECKED later — unreachable
+    code included (check_cfg analyses the nested CFG with include_unreachable=True) — minus what the block
+    assigned before, the function's own name and its parameters.  If the two analyses disagree, a variable
+    read only in unreachable code of the body is not passed on from an earlier block and the body is
+    rejected with 'not defined' although every path assigns it."""
+    BBM = "guppylang_internals.cfg.bb"
+    e = mk_engine(chk)
+    for q in ("VariableVisitor.visit_NestedFunctionDef", "VariableVisitor.visit_ModifiedBlock"):
+        e.func_info(BBM, q)
+    m = e.module(BBM)
+    for meth in ("visit_NestedFunctionDef", "visit_ModifiedBlock"):
+        def t(it, meth=meth):
+            VV = it.lookup_global(m, "VariableVisitor")
+            VS = it.lookup_global(m, "VariableStats")
+            log = []
+            ubb = lambda n_: SObj(ClassVal("BB", builtin=True), {"vars": SObj(ClassVal("Stats", builtin=True), {"used": {n_: f"USE-{n_}"}})})  # noqa: E731
+            entry = SObj(ClassVal("BB", builtin=True), {"compute_variable_stats": Builtin("cvs", lambda: "STATS-E")})
+            live = {entry: {"outer": ubb("outer"), "dead_only": ubb("dead_only"), "before": ubb("before"), "p": ubb("p"), "inner": ubb("inner")}}
+
+            def LA(it2, a, k):
+                log.append(("LivenessAnalysis", dict(k), len(a)))
+                return SObj(ClassVal("LA", builtin=True), {"run": Builtin("run", lambda bbs: live)})
+            e.models["guppylang_internals.cfg.analysis:LivenessAnalysis"] = LA
+            cfg = SObj(ClassVal("CFG", builtin=True), {"bbs": [entry], "entry_bb": entry})
+            stats = it.call(VS, [{"before": "ASSIGNED-BEFORE"}, {}], {})
+            vis = SObj(VV, {"stats": stats, "bb": None})
+            if meth == "visit_NestedFunctionDef":
+                args = SObj(ClassVal("arguments", builtin=True), {"args": [SObj(ClassVal("arg", builtin=True), {"arg": "p"})]})
+                node = SObj(ClassVal("NestedFunctionDef", builtin=True), {"cfg": cfg, "name": "inner", "args": args})
+            else:
+                node = SObj(ClassVal("ModifiedBlock", builtin=True), {"cfg": cfg, "control": [], "power": []})
+            f, _ = VV.lookup(meth)
+            it.call(f, [vis, node], {})
+            return dict(stats.fields["used"]), dict(stats.fields["assigned"]), log
+        paths = e.explore(t)
+
+        def post(p, meth=meth):
+            if p.kind != "return":
+                return z3.BoolVal(False)
+            used, assigned, log = p.value
+            las = [x for x in log if x[0] == "LivenessAnalysis"]
+            ok = len(las) == 1 and las[0][1].get("include_unreachable") is True
+            if meth == "visit_NestedFunctionDef":
+                ok = ok and used == {"outer": "USE-outer", "dead_only": "USE-dead_only"} and assigned.get("inner") is not None and "before" in assigned
+            else:
+                ok = ok and used == {"outer": "USE-outer", "dead_only": "USE-dead_only", "p": "USE-p", "inner": "USE-inner"}
+            return z3.BoolVal(bool(ok))
+        chk.prove_paths(f"VariableVisitor.{meth}:outer-uses==live-at-the-body's-entry(unreachable-code-included,as-in-the-later-check)-minus-own-bindings", paths, post,
+                        func=f"{BBM}:VariableVisitor.{meth}", replay=lambda m_: {"script": REPLAY_NESTED_DEAD, "input": {}})
+    chk.use_engine(e)
+
+
+REPLAY_NESTED_DEAD = r'''
+import tempfile, importlib.util, os, sys, shutil
+import guppylang
+guppylang.enable_experimental_features()
+from guppylang_internals.error import GuppyError
+src = """from guppylang import guppy
+@guppy
+def f(c: bool) -> int:
+    x = 1
+    if c:
+        pass
+    def inner() -> int:
+        if False:
+            return x
+        return 0
+    return inner()
+"""
+d = tempfile.mkdtemp(dir=os.environ.get("TMPDIR", "/var/tmp")); fn = os.path.join(d, "replay_c08n.py"); open(fn, "w").write(src)
+spec = importlib.util.spec_from_file_location("replay_c08n", fn); m = importlib.util.module_from_spec(spec); sys.modules["replay_c08n"] = m
+try:
+    spec.loader.exec_module(m)
+    try:
+        m.f.check(); out = {"violates": False, "observed": "accepted"}
+    except GuppyError as ex:
+        out = {"violates": True, "observed": "rejected: " + type(ex.error).__name__, "required": "x is assigned on every path; the program has neither problem and must be accepted"}
+except Exception as ex:
+    out = {"violates": False, "error": repr(ex)[:300]}
+shutil.rmtree(d, ignore_errors=True)
+print(json.dumps(out))
+'''
